@@ -209,7 +209,7 @@ func (n *Node) Next(r node.ListRequest) (node.Node, []val.Value, error) {
 		}
 	} else if key != nil {
 		if r.Delete {
-			if n.OnGetByKey != nil {
+			if n.OnDeleteByKey != nil {
 				err = n.OnDeleteByKey(n, r)
 			} else {
 				err = n.DoDeleteByKey(r)
